@@ -6,6 +6,7 @@ import z3
 from pyvc.dsl import SpecModule, Lazy
 from pyvc.types import *
 from pyvc.values import V, PyConstObj, PyFn, NONE_V, coerce, PyTup
+from pyvc.native import dhead, dtail, dput, dhas
 
 from annet.annlib.types import Op      # noqa: E402  (native evaluation of the spec functions)
 
@@ -152,3 +153,92 @@ M.contract(F, "multi", ensures=["result == spec_pv(rule, key, diff, True, False,
            **dict(_wr, raises={"AssertionError": ["len(diff[Op.AFFECTED]) != 0"]}))
 M.contract(F, "multi_all", ensures=["result == spec_pv(rule, key, diff, True, True, 10)"],
            **dict(_wr, raises={"AssertionError": ["len(diff[Op.AFFECTED]) != 0"]}))
+
+
+# ==================================================================================================================
+# vlan_diff (%diff_logic of `vlan *` / `vlan batch *`): a globally declared VLAN that stays in a `vlan batch` line is never removed
+Tree = U.dict("Tree", STR, "Tree")
+MatchO = U.opaque("MatchO")
+DiffPreO = U.opaque("DiffPreO")
+PopsO = U.opaque("PopsO")
+DItem = U.tuple("DItem", [OpT, STR, "DiffL", MatchO], fields=["op", "row", "children", "diff_pre"])
+DiffL = U.list("DiffL", DItem)
+OptItem = U.union("OptItem", dict(none=None, some=DItem))
+dd = M.opaque("dd", [Tree, Tree, DiffPreO, PopsO], DiffL, impl=None, note="common.default_diff(old, new, diff_pre, _pops) (proved in specs.basediff)")
+M.export(DiffItem=PyFn("DiffItem", lambda ex, args, kwargs, st, node: PyTup(list(args))), common=PyConstObj("common"))
+
+
+@M.spec
+def batch_of(t: Tree) -> VSet:
+    """the VLANs kept by the `vlan batch` lines of the new configuration"""
+    if not t:
+        return set()
+    row = dhead(t)[0]
+    return (vset(row) if pfx(row) == "vlan batch" else set()) | batch_of(dtail(t))
+
+
+@M.spec
+def vd(items: DiffL, batch: VSet) -> DiffL:
+    """a removed `vlan N` that the batch still holds is only AFFECTED; a `vlan N` without options that the batch holds is not listed at
+    all; everything else is passed through"""
+    if not items:
+        return []
+    it = items[0]
+    kept = bool(batch.intersection(vset(it.row)))
+    if pfx(it.row) == "vlan" and it.op == Op.REMOVED and kept:
+        here = [(Op.AFFECTED, it.row, it.children, it.diff_pre)]
+    elif pfx(it.row) == "vlan" and kept and not it.children:
+        here = []
+    else:
+        here = [it]
+    return here + vd(items[1:], batch)
+
+
+M.contract(F, "<default_diff>", params=dict(old=Tree, new=Tree, diff_pre=DiffPreO, _pops=PopsO), ret=DiffL, trusted=True,
+           ensures=["result == dd(old, new, diff_pre, _pops)"], note="specs.basediff; here a function of its arguments", properties=["C11"])
+M.contract(F, "vlan_diff", params=dict(old=Tree, new=Tree, diff_pre=DiffPreO, _pops=PopsO), ret=DiffL,
+           locals=dict(batch_new=VSet, ret=DiffL, result_item=OptItem, vlans=VSet, vlan_ids=VSet),
+           ensures=["result == vd(dd(old, new, diff_pre, _pops), batch_of(new))"],
+           loops={1: dict(match="new", inv=["(batch_new | batch_of(_rest1)) == batch_of(new)"]),
+                  2: dict(match="common.default_diff(old, new, diff_pre, _pops)", inv=["ret + vd(_rest2, batch_new) == vd(_it2, batch_new)"])},
+           canaries=["len(result) == 0"], properties=["C11"],
+           note="relative to _parse_vlancfg and default_diff (opaque)")
+_q = {c.qual: c for c in M.contracts}
+_q["vlan_diff"].calls["_parse_vlancfg"] = _q["<_parse_vlancfg>"]
+_q["vlan_diff"].calls["common.default_diff"] = _q["<default_diff>"]
+
+
+def _dd_impl(old, new, dp, pops):
+    from annet.annlib.rulebook import common as _c
+    return _c.default_diff(old, new, dp, pops)
+
+
+dd.impl = _dd_impl
+
+
+def _vd_inputs():
+    import itertools
+    from collections import OrderedDict as odict
+    from annet.annlib.rulebook import common as _c
+    rows = ["vlan 10", "vlan 20", "vlan batch 10 30", "vlan batch 20", "sysname x"]
+
+    def dpre(old, new):
+        out = odict()
+        for t in (old, new):
+            for r in t:
+                out.setdefault(r, {"match": {"attrs": {"ignore_case": False, "diff_logic": _c.default_diff}, "rule": r}, "subtree": odict()})
+        for r in out:
+            out[r]["subtree"] = dpre(old.get(r, odict()), new.get(r, odict()))
+        return out
+    for no in range(0, 3):
+        for o in itertools.combinations(rows, no):
+            for nn in range(0, 3):
+                for n in itertools.combinations(rows, nn):
+                    for with_children in (False, True):
+                        old = odict((r, odict([("description d", odict())]) if (with_children and r.startswith("vlan 1")) else odict()) for r in o)
+                        new = odict((r, odict()) for r in n)
+                        yield dict(old=old, new=new, diff_pre=dpre(old, new), _pops=(Op.AFFECTED,))
+
+
+_q["vlan_diff"].native_inputs = _vd_inputs
+_q["vlan_diff"].native_frame_skip = ["diff_pre"]
